@@ -94,6 +94,29 @@ def new_station(lat_deg, lon_deg, alt, mask=None):
     return st
 
 
+def drop_station(st):
+    """detach a station created by new_station from beyond's registries again (harness-side only): Node._update is
+    quadratic in the number of nodes, so thousands of registered stations would make every later frame change crawl.
+    A station is a leaf of both graphs, so the routes between the remaining nodes are untouched."""
+    from beyond.frames import frames, center, orient
+    name = st.name
+    for leaf, parent in ((st.orientation, st.orientation.parent), (st.center.node, center.Earth.node)):
+        leaf.neighbors.pop(parent, None)
+        parent.neighbors.pop(leaf, None)
+        seen, todo = {parent}, [parent]
+        while todo:
+            n = todo.pop()
+            n.routes.pop(name, None)
+            for m in n.neighbors:
+                if m not in seen:
+                    seen.add(m)
+                    todo.append(m)
+    frames.dynamic.pop(name, None)
+    for cls, attr in ((orient.Orientation, f"{name}_to_{st.orientation.parent.name}"), (center.Center, f"{name}_to_{center.Earth.name}")):
+        if attr in cls.__dict__:
+            delattr(cls, attr)
+
+
 # ---------------------------------------------------------------- input generators
 
 def gen_station(rng, k=None):
@@ -393,6 +416,7 @@ def oracle(ctx, widened):
                 out.fail(fam, "range to a point 500 km above the WGS-84 position of the station differs from 500 km: the station is placed on an ellipsoid "
                          f"with equatorial radius {a!r} m, flattening 1/{1 / f!r} instead of WGS-84 (6378137 m, 1/298.257223563)",
                          dict(inp_s, target_itrf=tgt), observed=float(t.r), expected=float(refw["range"]))
+        drop_station(st)
     # --- horizon mask
     st = new_station(10.0, 20.0, 30.0)
     n_tab = 400 if big else 60
@@ -415,6 +439,307 @@ def oracle(ctx, widened):
                 seg = "wrap" if (az[0] > 0 and xr < az[0]) else ("hit" if xr in az else "interior")
                 out.fail("mask-interp-" + seg, "get_mask differs from the piecewise-linear interpolation of the table (2 pi value also serving at 0)",
                          {"azimuths": az, "elevations": el, "azim": x}, observed=got, expected=exp)
+    drop_station(st)
     out.sample({"checks": "ellipsoid membership + normal, position formula, rest in ITRF/PEF/TIRF, omega x r in TOD/CIRF, finite-difference velocity in inertial frames, "
                           "range/elevation/azimuth/range-rate/axes vs extended-precision ENU, the four measures, inertial targets, WGS-84 constants, mask vs np.interp"})
+    return out
+
+
+# ---------------------------------------------------------------- extraction: source -> Generated/StationGeo{F,R}.lean
+
+def _path(*parts):
+    return os.path.join(core.REPO, "beyond", *parts)
+
+
+def _tree(*parts):
+    return ast.parse(open(_path(*parts)).read())
+
+
+def _return_value(fn):
+    rets = [s for s in fn.body if isinstance(s, ast.Return)]
+    if len(rets) != 1 or rets[0] is not fn.body[-1]:
+        raise py2lean.Untranslatable(f"{fn.name}: expected a single trailing return")
+    return rets[0].value
+
+
+class _Rewrite(ast.NodeTransformer):
+    """`orb.copy(frame=self.frame, form="spherical").<attr>` -> Name(<attr>_s); `len(self.path)` -> Name(npath)"""
+
+    def visit_Attribute(self, node):
+        v = node.value
+        if isinstance(v, ast.Call) and isinstance(v.func, ast.Attribute) and v.func.attr == "copy":
+            kw = {k.arg: ast.dump(k.value) for k in v.keywords}
+            want = {"frame": ast.dump(ast.parse("self.frame", mode="eval").body), "form": ast.dump(ast.Constant("spherical"))}
+            if v.args or kw != want or ast.dump(v.func.value) != ast.dump(ast.Name("orb", ast.Load())):
+                raise py2lean.Untranslatable("measure: unexpected copy() call " + ast.unparse(v))
+            if node.attr not in ("r", "theta", "phi", "r_dot"):
+                raise py2lean.Untranslatable("measure: unexpected spherical component " + node.attr)
+            return ast.Name("s_" + node.attr, ast.Load())
+        return self.generic_visit(node)
+
+    def visit_Call(self, node):
+        if ast.unparse(node) == "len(self.path)":
+            return ast.Name("npath", ast.Load())
+        return self.generic_visit(node)
+
+
+MATMUL_PRELUDE = """/-- numpy's `@` on 3x3 matrices given as lists of rows -/
+def matMul3 (a b : List (List R)) : List (List R) :=
+  a.map (fun row => [0, 1, 2].map (fun j =>
+    row.getD 0 0 * (b.getD 0 []).getD j 0 + row.getD 1 0 * (b.getD 1 []).getD j 0 + row.getD 2 0 * (b.getD 2 []).getD j 0))
+
+"""
+
+
+def build_generated():
+    """text of the generated Lean body + dict of numeric self-check values"""
+    tr = py2lean.Tr()
+    parts = [MATMUL_PRELUDE]
+    # 1. constants.py: Earth = Body(equatorial_radius=…, flattening=…), Body.eccentricity, the r/f/e aliases
+    ctree = _tree("constants.py")
+    earth = next((s for s in ctree.body if isinstance(s, ast.Assign) and py2lean.Tr().target_names(s.targets[0]) == ["Earth"]), None)
+    if earth is None or not isinstance(earth.value, ast.Call) or tr.dotted(earth.value.func) != "Body":
+        raise py2lean.Untranslatable("constants.Earth is not a Body(...) literal")
+    kw = {k.arg: k.value for k in earth.value.keywords}
+    getattr_fn = py2lean.find_function(ctree, "Body.__getattr__")
+    adict = next((s.value for s in getattr_fn.body if isinstance(s, ast.Assign) and isinstance(s.value, ast.Dict)), None)
+    alias = {k.value: v.value for k, v in zip(adict.keys, adict.values) if isinstance(k, ast.Constant) and isinstance(v, ast.Constant)} if adict else {}
+    if not (alias.get("r") == "equatorial_radius" and alias.get("f") == "flattening" and alias.get("e") == "eccentricity"):
+        raise py2lean.Untranslatable("Body aliases r/f/e changed")
+    init = py2lean.find_function(ctree, "Body.__init__")
+    stores = {ast.unparse(s) for s in init.body}
+    if not {"self.equatorial_radius = equatorial_radius", "self.flattening = flattening"} <= stores:
+        raise py2lean.Untranslatable("Body.__init__ does not store equatorial_radius / flattening as given")
+    ecc = _return_value(py2lean.find_function(ctree, "Body.eccentricity"))
+    parts.append("/-- `Earth.r` = `Earth.equatorial_radius` (constants.py) -/\ndef earthR : R := " + tr.expr(kw["equatorial_radius"]) + "\n")
+    parts.append("/-- `Earth.f` = `Earth.flattening` -/\ndef earthF : R := " + tr.expr(kw["flattening"]) + "\n")
+    parts.append("/-- `Earth.e` = `Body.eccentricity` -/\ndef earthE : R := " + py2lean.Tr(consts={"self.f": "earthF"}).expr(ecc) + "\n\n")
+    # 2. utils/matrix.py: rot2, rot3
+    mtree = _tree("utils", "matrix.py")
+    for name in ("rot2", "rot3"):
+        fn = py2lean.find_function(mtree, name)
+        if [a.arg for a in fn.args.args] != ["theta"]:
+            raise py2lean.Untranslatable(name + " signature")
+        parts.append(f"/-- `{name}` of utils/matrix.py -/\ndef {name} (theta : R) : List (List R) :=\n  " + tr.expr(_return_value(fn)) + "\n\n")
+    # 3. stations.py: _geodetic_to_cartesian
+    spath = _path("frames", "stations.py")
+    gfn = py2lean.find_function(ast.parse(open(spath).read()), "TopocentricFrame._geodetic_to_cartesian")
+    if [a.arg for a in gfn.args.args] != ["cls", "lat", "lon", "alt"] or ast.unparse(_return_value(gfn)) != "np.array([x, y, z, 0, 0, 0])":
+        raise py2lean.Untranslatable("_geodetic_to_cartesian signature / return value changed")
+    parts.append("/-- `TopocentricFrame._geodetic_to_cartesian` (position part; the velocity part is the literal 0, 0, 0) -/\n" +
+                 py2lean.translate_slice(spath, "TopocentricFrame._geodetic_to_cartesian", ["lat", "lon", "alt"], ["x", "y", "z"], "geodeticToCartesian",
+                                         result_expr="[x, y, z]", consts={"Earth.r": "earthR", "Earth.e": "earthE"}) + "\n")
+    # 4. orient.py: the topocentric matrix
+    otree = _tree("frames", "orient.py")
+    ofn = py2lean.find_function(otree, "TopocentricOrientation.__init__")
+    src = [ast.unparse(s) for s in ofn.body]
+    if "lat, lon = latlonalt[:-1]" not in src:
+        raise py2lean.Untranslatable("TopocentricOrientation.__init__: lat, lon are not latlonalt[:-1]")
+    massign = next((s for s in ofn.body if isinstance(s, ast.Assign) and ast.unparse(s.targets[0]) == "self._m"), None)
+    if massign is None:
+        raise py2lean.Untranslatable("TopocentricOrientation.__init__: no self._m")
+    tp = py2lean.find_function(otree, "TopocentricOrientation._to_parent")
+    if ast.unparse(_return_value(tp)) != "(self._m, None)":
+        raise py2lean.Untranslatable("TopocentricOrientation._to_parent no longer returns (self._m, None)")
+    mexpr = py2lean.Tr(funcs={"rot2": "rot2", "rot3": "rot3"}, matmul="matMul3").expr(massign.value)
+    parts.append("/-- `TopocentricOrientation._m` = the station-to-parent rotation (`_to_parent` returns it with rate None) -/\n"
+                 f"def topoM (lat lon : R) : List (List R) :=\n  {mexpr}\n\n")
+    # 5. forms.py: cartesian -> spherical
+    fpath = _path("orbits", "forms.py")
+    sfn = py2lean.find_function(ast.parse(open(fpath).read()), "Form._cartesian_to_spherical")
+    ssrc = [ast.unparse(s) for s in sfn.body]
+    if not ("(x, y, z, vx, vy, vz) = coord" in ssrc or "x, y, z, vx, vy, vz = coord" in ssrc) or "r = np.linalg.norm(coord[:3])" not in ssrc \
+            or ast.unparse(_return_value(sfn)) != "np.array([r, theta, phi, r_dot, theta_dot, phi_dot], dtype=float)":
+        raise py2lean.Untranslatable("_cartesian_to_spherical: unpacking / norm / return value changed")
+    parts.append("/-- `Form._cartesian_to_spherical`; `r` is `np.linalg.norm(coord[:3])`, passed in by the model -/\n" +
+                 py2lean.translate_slice(fpath, "Form._cartesian_to_spherical", ["x", "y", "z", "vx", "vy", "vz", "r"],
+                                         ["theta", "phi", "r_dot", "theta_dot", "phi_dot"], "sphericalOf",
+                                         result_expr="[r, theta, phi, r_dot, theta_dot, phi_dot]") + "\n")
+    # 6. utils/measures.py: value expressions of the four station measures
+    metree = _tree("utils", "measures.py")
+    for cls in ("Azimut", "Elevation", "Range", "Doppler"):
+        fn = py2lean.find_function(metree, cls + ".from_orbit")
+        call = _return_value(fn)
+        if not (isinstance(call, ast.Call) and ast.unparse(call.func) == "self.__class__" and len(call.args) == 3 and not call.keywords
+                and ast.unparse(call.args[0]) == "self.path" and ast.unparse(call.args[1]) == "orb.date"):
+            raise py2lean.Untranslatable(f"{cls}.from_orbit: unexpected constructor call")
+        val = _Rewrite().visit(copy.deepcopy(call.args[2]))
+        parts.append(f"/-- value of `{cls}.from_orbit`: spherical components of `orb.copy(frame=self.frame, form=\"spherical\")`, `npath = len(self.path)` -/\n"
+                     f"def meas{cls} (s_r s_theta s_phi s_r_dot npath : R) : R :=\n  {tr.expr(val)}\n\n")
+    fr = py2lean.find_function(metree, "StationMeasure.frame")
+    if ast.unparse(_return_value(fr)) != "self.path[0]":
+        raise py2lean.Untranslatable("StationMeasure.frame is no longer path[0]")
+    return "".join(parts)
+
+
+def extract(ctx):
+    body = build_generated()
+    ch = py2lean.instantiate(core.LEAN, "StationGeo", body,
+                             "beyond/constants.py, utils/matrix.py, frames/stations.py, frames/orient.py, orbits/forms.py, utils/measures.py")
+    ch += instantiate.main()
+    return ch
+
+
+# ---------------------------------------------------------------- correspondence: compiled Lean model vs the real code
+
+def _floats(line):
+    return [b2f(s) for s in line.split()]
+
+
+def _cmp(out, family, what, inp, real, model_line, tols, angles=(), skip=()):
+    """real: list of floats; tols: list of absolute tolerances (already scaled); angles: indices compared modulo 2 pi"""
+    if not model_line or not (model_line[0].isdigit()):
+        out.fail(family, "model rejected the request: " + model_line, inp, observed=[float(v) for v in real], expected=model_line)
+        return False
+    model = _floats(model_line)
+    if len(model) != len(real):
+        out.fail(family, "model returned a different number of values", inp, observed=[float(v) for v in real], expected=model)
+        return False
+    for i, (a, b, tol) in enumerate(zip(real, model, tols)):
+        a = float(a)
+        if i in skip:
+            continue
+        if math.isnan(a) or math.isnan(b) or math.isinf(a) or math.isinf(b):
+            ok = (math.isnan(a) and math.isnan(b)) or a == b
+        elif i in angles:
+            ok = angdiff(a, b) <= tol
+        else:
+            ok = abs(a - b) <= tol
+        if not ok:
+            out.fail(family, f"{what}: component {i} differs between beyond and the Lean model", inp, observed=[float(v) for v in real], expected=model)
+            return False
+    return True
+
+
+def correspondence(ctx):
+    import numpy as np
+    from beyond.constants import Earth
+    from beyond.dates import Date, timedelta
+    from beyond.frames.stations import TopocentricFrame
+    from beyond.orbits import StateVector
+    from beyond.utils.matrix import expand
+    from beyond.utils.measures import Range, Azimut, Elevation, Doppler
+    _setup()
+    out = Outcome()
+    rng = ctx.rng
+    reqs, checks = [], []   # checks[i](reply_line)
+
+    def add(req, fn):
+        reqs.append(req)
+        checks.append(fn)
+
+    # constants: the regenerated literals equal the live objects
+    add("c11const", lambda rep: _cmp(out, "constants", "Earth.r / Earth.f / Earth.e", {}, [Earth.r, Earth.f, Earth.e], rep, [0.0, 1e-18, 1e-16]))
+    out.count(key="c11const", nontrivial=False, kind="constants")
+    date0 = Date(2022, 2, 3, 4, 5, 6)
+    n_st = ctx.n(60, 1500)
+    n_tg = ctx.n(12, 40)
+    MEAS = [Range, Azimut, Elevation, Doppler]
+    for k in range(n_st):
+        lat_d, lon_d, alt, skind = gen_station(rng, k)
+        st = new_station(lat_d, lon_d, alt)
+        lat, lon, alt = (float(c) for c in st.latlonalt)
+        inp_s = {"latlonalt_deg_m": [lat_d, lon_d, alt]}
+        date = date0 + timedelta(seconds=rng.uniform(0, 3e7))
+        g = TopocentricFrame._geodetic_to_cartesian(lat, lon, alt)
+        spos = [float(c) for c in g[:3]]
+        req = " ".join(["c11geo", f2b(lat), f2b(lon), f2b(alt)])
+        add(req, lambda rep, g=g, i=inp_s: _cmp(out, "geo", "_geodetic_to_cartesian", i, list(g[:3]), rep, [2e-8] * 3))
+        out.count(key=req, kind="geo", station=skind)
+        req = " ".join(["c11topom", f2b(lat), f2b(lon)])
+        m = np.array(st.orientation._m)
+        add(req, lambda rep, m=m, i=inp_s: _cmp(out, "topom", "TopocentricOrientation._m", i, list(m.flatten()), rep, [1e-14] * 9))
+        out.count(key=req, kind="topom", station=skind)
+        up = [float(c) for c in m[:, 2]]
+        # the station origin seen from the parent frame, and a generic station-frame state
+        for loc in ([0.0] * 6, [rng.uniform(-1e5, 1e5) for _ in range(3)] + [rng.uniform(-100, 100) for _ in range(3)]):
+            real = np.array(StateVector(loc, date, "cartesian", st).copy(frame="ITRF"))
+            req = " ".join(["c11back", f2b(lat), f2b(lon), f2b(alt)] + [f2b(c) for c in loc])
+            add(req, lambda rep, real=real, i=dict(inp_s, state=loc): _cmp(out, "back", "station frame -> ITRF", i, list(real), rep, [2e-8] * 3 + [1e-12] * 3))
+            out.count(key=req, kind="back", nontrivial=any(loc))
+        for _ in range(n_tg):
+            r, v, tkind = gen_target(rng, spos, up)
+            x = r + v
+            sv = StateVector(x, date, "cartesian", "ITRF")
+            cart = np.array(sv.copy(frame=st, form="cartesian"))
+            sph = np.array(sv.copy(frame=st, form="spherical"))
+            req = " ".join(["c11topo", f2b(lat), f2b(lon), f2b(alt)] + [f2b(c) for c in x])
+            rg = float(sph[0])
+            hz = max(math.hypot(cart[0], cart[1]), 1e-300)
+            sp = float(np.linalg.norm(v))
+            dl = 2e-8 + 4e-15 * float(np.linalg.norm(r))       # position noise (cancellation r - s, inverse vs transpose)
+            dv = 1e-15 + 4e-15 * sp
+            cosel = hz / rg
+            tol_el = 1e-12 + min(4e-16 / max(cosel, 1e-300), 5e-8) + dl / rg * 2
+            tols = [dl] * 3 + [dv] * 3 + [dl, 1e-12 + 2 * dl / hz, tol_el, dv + 2 * dl * sp / rg + 1e-12 * sp,
+                                          (1e-12 + 4 * dl / hz) * sp / hz + 1e-18, (1e-12 + 4 * dl / hz) * sp * (1 / hz + 1 / rg) + 1e-18]
+            inp = dict(inp_s, target_itrf=x)
+            # exactly at the zenith (horizontal distance below a micrometre) theta and the angular rates are 0/0: not compared
+            skip = (7, 10, 11) if hz < 1e-6 else ()
+            add(req, lambda rep, real=list(cart) + list(sph), i=inp, t=tols, sk=skip: _cmp(out, "topo", "copy(frame=station)", i, real, rep, t, angles=(7,), skip=sk))
+            out.count(key=req, kind="topo", zenith_singular=bool(skip), target=tkind, station=skind, theta_quadrant=int((float(sph[1]) % TWO_PI) // (math.pi / 2)), above=bool(sph[2] > 0))
+            if rng.random() < 0.5:
+                ki = rng.randrange(4)
+                npath = rng.choice([2, 3, 4])
+                path = tuple([st] + ["sat", st, "relay"][: npath - 1])
+                val = float(MEAS[ki](path, date, 0.0).from_orbit(sv).value)
+                req = " ".join(["c11meas", str(ki), str(npath), f2b(lat), f2b(lon), f2b(alt)] + [f2b(c) for c in x])
+                tol = [dl * (npath - 1), tols[7] if not skip else 10.0, tols[8], tols[9]][ki]
+                add(req, lambda rep, val=val, i=dict(inp, measure=MEAS[ki].__name__, path_len=npath), t=tol, ki=ki:
+                    _cmp(out, "meas", "measure value", i, [val], rep, [t], angles=(0,) if ki == 1 else ()))
+                out.count(key=req, kind="meas-" + MEAS[ki].__name__, path_len=npath)
+        drop_station(st)
+    # expand(m, rate) @ state
+    for _ in range(ctx.n(200, 5000)):
+        ang = [rng.uniform(-math.pi, math.pi) for _ in range(3)]
+        from beyond.utils.matrix import rot1, rot2, rot3
+        m = rot3(ang[0]) @ rot1(ang[1]) @ rot2(ang[2]) if rng.random() < 0.8 else np.array([[rng.uniform(-2, 2) for _ in range(3)] for _ in range(3)])
+        u = rng.random()
+        rate = None if u < 0.25 else ([0.0, 0.0, -7.292115146706979e-5] if u < 0.5 else [rng.uniform(-1e-3, 1e-3) for _ in range(3)])
+        stt = [rng.uniform(-1, 1) * 4.2e7 for _ in range(3)] + [rng.uniform(-1, 1) * 8e3 for _ in range(3)]
+        real = expand(m, rate) @ np.array(stt)
+        req = " ".join(["c11expand"] + [f2b(c) for c in m.flatten()] + [f2b(c) for c in (rate or [0.0] * 3)] + [f2b(c) for c in stt])
+        sc = float(np.abs(m).sum()) * 4.2e7
+        add(req, lambda rep, real=real, i={"m": m.tolist(), "rate": rate, "state": stt}, sc=sc: _cmp(out, "expand", "expand(m, rate) @ state", i, list(real), rep, [1e-14 * sc] * 3 + [1e-14 * (sc * 1e-3 + 8e3 * 6)] * 3))
+        out.count(key=req, kind="expand", rate="none" if rate is None else ("earth" if u < 0.5 else "random"))
+    # get_mask
+    st = new_station(-20.0, 130.0, 300.0)
+    exact = [0, 0]
+
+    def mask_check(rep, got, inp):
+        if isinstance(got, str):
+            if rep != got:
+                out.fail("mask", "get_mask raises where the model returns a value (or conversely)", inp, observed=got, expected=rep)
+            return
+        if not rep[0].isdigit():
+            out.fail("mask", "model rejects a table for which get_mask returns a value", inp, observed=got, expected=rep)
+            return
+        mv = b2f(rep)
+        exact[0] += 1
+        exact[1] += (mv == got) or (math.isnan(mv) and math.isnan(got))
+        if not core.close(got, mv, rtol=1e-12, atol=1e-13):
+            out.fail("mask", "get_mask differs from the Lean model of its scan loop", inp, observed=got, expected=mv)
+
+    for i in range(ctx.n(250, 8000)):
+        u = rng.random()
+        az, el, mkind = gen_mask(rng) if u < 0.8 else gen_mask_unconventional(rng)
+        if i == 0:
+            az, el, mkind = [], [], "empty"
+        st.mask = np.array([az, el], dtype=float)
+        for x, akind in (gen_azimuths(rng, az, 8) if az else [(1.0, "random")]):
+            try:
+                with np.errstate(all="ignore"):
+                    got = float(st.get_mask(x))
+            except IndexError:
+                got = "index-error"
+            req = " ".join(["c11mask", str(len(az))] + [f2b(c) for pr in zip(az, el) for c in pr] + [f2b(x)])
+            add(req, lambda rep, got=got, inp={"azimuths": az, "elevations": el, "azim": x}: mask_check(rep, got, inp))
+            out.count(key=req, kind="mask-" + akind, table=mkind, npoints=len(az), nontrivial=akind in ("random", "wrap-segment", "hit-shifted"))
+    drop_station(st)
+    replies = core.Driver().run(reqs)
+    for req, fn, rep in zip(reqs, checks, replies):
+        fn(rep)
+        if req.split()[0] in ("c11topo", "c11mask", "c11meas"):
+            out.sample({"request": req[:100] + "…", "model": rep[:80]}, limit=3)
+    out.notes.append(f"get_mask: {exact[1]} of {exact[0]} values bit-identical between numpy and the compiled model")
     return out
